@@ -246,8 +246,15 @@ def _run_main(F, R, ctx):
         for n_, fn_ in F.fns.items():
             mm = re.search(r"\{impl \w+(<[^}]*>)? for %s(<[^}]*>)?\}::(visit_\w+)$" % marker, n_)
             if mm:
+                def _traces(callee, _m=marker):
+                    # a trace call, or one of the marker's own helpers (not a visit method) that traces
+                    if re.search(TRACE, callee):
+                        return True
+                    h_ = F.fns.get(callee)
+                    return bool(h_ is not None and re.search(r"\{impl %s(<[^}]*>)?\}::(?!visit_)\w+$" % _m, callee) and
+                                any(re.search(TRACE, b2["callee"]) for _, b2 in lib.family_calls(F, h_)))
                 counts.setdefault(mm.group(3), {})[marker] = (
-                    len([1 for _, b_ in lib.family_calls(F, fn_) if re.search(TRACE, b_["callee"])]), fn_)
+                    len([1 for _, b_ in lib.family_calls(F, fn_) if _traces(b_["callee"])]), fn_)
     nh = 0
     for kind, per in sorted(counts.items()):
         if len(per) < 2 or not any(c for c, _ in per.values()):
